@@ -89,53 +89,52 @@ func main() {
 	fmt.Printf("instrument: %d files, %d edits\n", nfiles, nedits)
 }
 
-
 // mapRanges lists every range statement over a map with an ordered key type in
 // the repository (file, enclosing function, ranged expression), produced once
 // with go/types. The rewriter turns them into iteration in key order, so that
 // Go's randomised map iteration is not a hidden source of nondeterminism in a
 // simulated run. A range statement that is not listed is left alone.
 var mapRanges = map[[3]string]bool{
-	{"base/vote.go", "FindVoteResult", "count"}: true,
-	{"isaac/block.go", "IsValid", "f.items"}: true,
-	{"isaac/block/map_json.go", "DecodeJSON", "u.Items"}: true,
-	{"isaac/block_json.go", "DecodeJSON", "u.Items"}: true,
-	{"isaac/database/pool.go", "OperationHashes", "facts"}: true,
-	{"isaac/readers.go", "isInLocalFS", "m"}: true,
-	{"isaac/readers.go", "writeItemFiles", "oldbfiles.Items()"}: true,
-	{"isaac/states/ballotbox.go", "copyVoted", "vr.ballots"}: true,
-	{"isaac/states/ballotbox.go", "copyVoted", "vr.voted"}: true,
-	{"isaac/states/ballotbox.go", "countFromBallots", "vr.ballots"}: true,
-	{"isaac/states/ballotbox.go", "sfs", "voted"}: true,
-	{"isaac/states/ballotbox.go", "sortBallotSignFactsByExpels", "mw"}: true,
-	{"isaac/states/ballotbox.go", "sortBallotSignFactsByExpels", "signfacts"}: true,
-	{"isaac/states/ballotbox.go", "voteproofFromBallot", "vr.vps"}: true,
-	{"isaac/states/states.go", "SetLogging", "st.newHandlers"}: true,
-	{"isaac/syncer.go", "Actives", "p.nonfixed"}: true,
-	{"isaac/syncer.go", "IsInNonFixed", "p.nonfixed"}: true,
-	{"isaac/syncer.go", "NodeConnInfo", "p.nonfixed"}: true,
-	{"isaac/syncer.go", "NodeExists", "p.nonfixed"}: true,
-	{"isaac/syncer.go", "RemoveNonFixedNode", "p.nonfixed"}: true,
-	{"isaac/syncer.go", "Traverse", "p.nonfixed"}: true,
-	{"isaac/syncer.go", "pick", "p.nonfixed"}: true,
-	{"launch/acl.go", "compareACLUserValues", "a"}: true,
-	{"launch/cmd/network_block_item_file.go", "downloadBlockItems", "m"}: true,
-	{"launch/local_params.go", "IsValid", "p.handlerTimeouts"}: true,
-	{"launch/local_params.go", "IsValid", "r.m"}: true,
-	{"launch/local_params.go", "IsValid", "rs.rules"}: true,
+	{"base/vote.go", "FindVoteResult", "count"}:                                  true,
+	{"isaac/block.go", "IsValid", "f.items"}:                                     true,
+	{"isaac/block/map_json.go", "DecodeJSON", "u.Items"}:                         true,
+	{"isaac/block_json.go", "DecodeJSON", "u.Items"}:                             true,
+	{"isaac/database/pool.go", "OperationHashes", "facts"}:                       true,
+	{"isaac/readers.go", "isInLocalFS", "m"}:                                     true,
+	{"isaac/readers.go", "writeItemFiles", "oldbfiles.Items()"}:                  true,
+	{"isaac/states/ballotbox.go", "copyVoted", "vr.ballots"}:                     true,
+	{"isaac/states/ballotbox.go", "copyVoted", "vr.voted"}:                       true,
+	{"isaac/states/ballotbox.go", "countFromBallots", "vr.ballots"}:              true,
+	{"isaac/states/ballotbox.go", "sfs", "voted"}:                                true,
+	{"isaac/states/ballotbox.go", "sortBallotSignFactsByExpels", "mw"}:           true,
+	{"isaac/states/ballotbox.go", "sortBallotSignFactsByExpels", "signfacts"}:    true,
+	{"isaac/states/ballotbox.go", "voteproofFromBallot", "vr.vps"}:               true,
+	{"isaac/states/states.go", "SetLogging", "st.newHandlers"}:                   true,
+	{"isaac/syncer.go", "Actives", "p.nonfixed"}:                                 true,
+	{"isaac/syncer.go", "IsInNonFixed", "p.nonfixed"}:                            true,
+	{"isaac/syncer.go", "NodeConnInfo", "p.nonfixed"}:                            true,
+	{"isaac/syncer.go", "NodeExists", "p.nonfixed"}:                              true,
+	{"isaac/syncer.go", "RemoveNonFixedNode", "p.nonfixed"}:                      true,
+	{"isaac/syncer.go", "Traverse", "p.nonfixed"}:                                true,
+	{"isaac/syncer.go", "pick", "p.nonfixed"}:                                    true,
+	{"launch/acl.go", "compareACLUserValues", "a"}:                               true,
+	{"launch/cmd/network_block_item_file.go", "downloadBlockItems", "m"}:         true,
+	{"launch/local_params.go", "IsValid", "p.handlerTimeouts"}:                   true,
+	{"launch/local_params.go", "IsValid", "r.m"}:                                 true,
+	{"launch/local_params.go", "IsValid", "rs.rules"}:                            true,
 	{"launch/local_params.go", "defaultNetworkParams", "defaultHandlerTimeouts"}: true,
-	{"launch/local_params_marshal.go", "marshaler", "p.handlerTimeouts"}: true,
-	{"launch/local_params_marshal.go", "unmarshal", "u.HandlerTimeout"}: true,
-	{"launch/ratelimit_json.go", "MarshalJSON", "m.m"}: true,
-	{"launch/ratelimit_json.go", "UnmarshalJSON", "u[i]"}: true,
-	{"util/context.go", "ContextWithValues", "v"}: true,
-	{"util/hint/set.go", "Traverse", "st.set"}: true,
-	{"util/hint/set.go", "Traverse", "st.set[i]"}: true,
-	{"util/lock.go", "Map", "l.m"}: true,
-	{"util/lock.go", "Map", "sm"}: true,
-	{"util/lock.go", "Traverse", "l.m"}: true,
-	{"util/ps/ps.go", "SetLogging", "ps.m"}: true,
-	{"util/ps/ps.go", "names", "ps.m"}: true,
+	{"launch/local_params_marshal.go", "marshaler", "p.handlerTimeouts"}:         true,
+	{"launch/local_params_marshal.go", "unmarshal", "u.HandlerTimeout"}:          true,
+	{"launch/ratelimit_json.go", "MarshalJSON", "m.m"}:                           true,
+	{"launch/ratelimit_json.go", "UnmarshalJSON", "u[i]"}:                        true,
+	{"util/context.go", "ContextWithValues", "v"}:                                true,
+	{"util/hint/set.go", "Traverse", "st.set"}:                                   true,
+	{"util/hint/set.go", "Traverse", "st.set[i]"}:                                true,
+	{"util/lock.go", "Map", "l.m"}:                                               true,
+	{"util/lock.go", "Map", "sm"}:                                                true,
+	{"util/lock.go", "Traverse", "l.m"}:                                          true,
+	{"util/ps/ps.go", "SetLogging", "ps.m"}:                                      true,
+	{"util/ps/ps.go", "names", "ps.m"}:                                           true,
 }
 
 func fatal(s string) {
@@ -425,7 +424,7 @@ func rewrite(path, rel string) (int, error) {
 		add(off(f.Name.End()), 0, `; import simrt "github.com/spikeekips/mitum/simrt"`)
 	}
 
-	if len(edits) == 0 {
+	if len(edits) == 0 && rel != "base/pk_priv.go" {
 		return 0, nil
 	}
 
@@ -451,6 +450,27 @@ func rewrite(path, rel string) (int, error) {
 
 			return edits[i].seq > edits[j].seq
 		})
+	}
+
+	if rel == "base/pk_priv.go" && strings.Contains(string(src), "btcec.NewPrivateKey()") {
+		// btcec draws the new key from crypto/rand inside the dependency; draw it from the seeded shim instead
+		// (any 32 bytes are a key, reduced modulo the group order)
+		src = append(src, []byte("\nfunc verifNewPrivateKey() (*btcec.PrivateKey, error) {\n\tvar b [32]byte\n\t_, _ = verifsrand.Read(b[:])\n\tpriv, _ := btcec.PrivKeyFromBytes(b[:])\n\n\treturn priv, nil\n}\n")...)
+		out = src
+		i := strings.Index(string(src), "btcec.NewPrivateKey()")
+		add(i, len("btcec.NewPrivateKey()"), "verifNewPrivateKey()")
+		add(off(f.Name.End()), 0, `; import verifsrand "github.com/spikeekips/mitum/simrt/srand"`)
+		sort.SliceStable(edits, func(i, j int) bool {
+			if edits[i].off != edits[j].off {
+				return edits[i].off > edits[j].off
+			}
+
+			return edits[i].seq > edits[j].seq
+		})
+	}
+
+	if len(edits) == 0 {
+		return 0, nil
 	}
 
 	for i := range edits {
